@@ -763,6 +763,35 @@ func (e *Env) callExpr(ex *ast.CallExpr) (SVal, error) {
 			}
 		}
 		return SVal{}, fmt.Errorf("res(%s): no such event on this path", pat)
+	case "forall":
+		// forall(j, lo, hi, body): body holds for every integer j with lo <= j < hi
+		if len(ex.Args) != 4 {
+			return SVal{}, fmt.Errorf("forall(j, lo, hi, body)")
+		}
+		id, ok := ex.Args[0].(*ast.Ident)
+		if !ok {
+			return SVal{}, fmt.Errorf("forall: first argument must be a variable name")
+		}
+		lo, err := e.eval(ex.Args[1])
+		if err != nil {
+			return SVal{}, err
+		}
+		hi, err := e.eval(ex.Args[2])
+		if err != nil {
+			return SVal{}, err
+		}
+		bound := "qv_" + id.Name
+		c := e.sub()
+		c.Vars = map[string]SVal{}
+		for k, v := range e.Vars {
+			c.Vars[k] = v
+		}
+		c.Vars[id.Name] = mkInt(bound)
+		body, err := c.eval(ex.Args[3])
+		if err != nil {
+			return SVal{}, err
+		}
+		return mkBool("(forall ((" + bound + " Int)) (=> (and (<= " + lo.T + " " + bound + ") (< " + bound + " " + hi.T + ")) " + body.T + "))"), nil
 	case "appended":
 		// appended(s, v): the slice value s with v appended (contents compared by matchEvent)
 		sv, err := e.eval(ex.Args[0])
